@@ -21,8 +21,9 @@ MustFail(vsize, keys, klens, vlens) ==
 \* succeeds with probability ~exp(-n^2 / 2^25) per attempt (1000 attempts): certain for <= 10 000 entries per bucket
 \* (the builder's target), hopeless above ~20 000.  avgload = inserts per bucket given the declared item count.
 MayFail(avgload) == avgload > 10000
-BuildAllowed(vsize, keys, klens, vlens, outcome, found, deterministic) ==
+\* metaok: the metadata given to the builder was read back unchanged from the sealed file
+BuildAllowed(vsize, keys, klens, vlens, outcome, found, deterministic, metaok) ==
     /\ outcome \in {"ok", "err"}
     /\ MustFail(vsize, keys, klens, vlens) => outcome = "err"
-    /\ outcome = "ok" => (\A i \in 1..Len(found) : found[i]) /\ deterministic
+    /\ outcome = "ok" => (\A i \in 1..Len(found) : found[i]) /\ deterministic /\ metaok
 =============================================================================
